@@ -1977,12 +1977,12 @@ class RepeatingEngine(Engine):
             def suicide(err=None):
                 self._suicide = True
                 self.log.info("Will proceed to terminate because of kill-after-producers-done-delay")
-                if self.process is not None:
+                if self.process is not None and self.process.isAlive():
                     # VV: RepeatingEngine must be currently running, signal it to stop
                     self.process.kill()
                 else:
-                    # VV: RepeatingEngine must be in-between consecutive invocations
-                    #     kill it and mark it as finished
+                    # VV: RepeatingEngine must be in-between consecutive invocations (self.process is the task of
+                    #     the previous invocation, or None if there has been none) kill it and mark it as finished
                     self.kill()
                     self.kernelCompleted = True
 
